@@ -9,7 +9,15 @@
 (* reaches a top frame.  The documentation promises a ResolveError for a name that cannot be    *)
 (* found and for "outline overs create loop"; building then fails (Builder.build returns False).*)
 (*                                                                                             *)
-(* The procedure is written as actions (Start, Climb, NextFrame, Finish) so that TLC can check  *)
+(* A frame may also declare its primary under frame (`under name`: a frame below it, but the    *)
+(* script may name any frame, itself, or a name no frame has).  The primary under of a frame is *)
+(* the declared one, else the first frame attached below it.  After the over links the builder  *)
+(* traces the outline of every frame in declaration order: up its overs, then down the chain of *)
+(* primary unders.  A chain that meets a frame twice has no outline: that is a ResolveError     *)
+(* ("Outline unders create loop") wherever on the chain the loop lies.                          *)
+(*                                                                                             *)
+(* The procedure is written as actions (Start, Climb, NextFrame, EndOvers, TraceStart,          *)
+(* Descend, TraceEnd, TraceFail, Finish) so that TLC can check                                  *)
 (*   Termination: under weak fairness every over-graph on up to MaxFrames frames ends in        *)
 (*                "resolved" or "error" (a cycle is an error however the climb entered it);     *)
 (*   Sound / Complete: "resolved" exactly for the acyclic graphs without dangling names, and    *)
@@ -18,7 +26,10 @@
 (* script in a child process under a wall-clock limit (vf/families/buildterm.py).               *)
 EXTENDS Integers, Sequences, FiniteSets, TLC, Json
 
-CONSTANTS MaxFrames, Emit
+CONSTANTS MaxFrames,       \* graphs on 1..MaxFrames frames
+          MaxUnderFrames,  \* every assignment of `under` declarations is explored for graphs on up to this many frames,
+          MaxUnders,       \* larger graphs carry at most this many `under` declarations
+          Emit
 
 VARIABLES nf,       \* number of frames
           over,     \* over[f] \in 0..nf+1
@@ -27,47 +38,89 @@ VARIABLES nf,       \* number of frames
           seen,     \* frames met on this climb
           unders,   \* unders[f]: sequence of frames attached below f
           linked,   \* frames whose over name has been replaced by a reference
+          under,    \* under[f] \in 0..nf+1 : the declared primary under (0: none declared)
+          phase,    \* "overs" | "trace"
           result    \* "running" | "resolved" | "error"
-vars == <<nf, over, cur, pos, seen, unders, linked, result>>
+vars == <<nf, over, cur, pos, seen, unders, linked, under, phase, result>>
 
 Frames == 1..nf
 Dangling == nf + 1
 InSeq(q, x) == \E i \in 1..Len(q) : q[i] = x
 
+\* over links alone decide the verdict when they are ill formed: `under` declarations are explored on the well formed graphs
+RECURSIVE UpIn(_, _, _, _)
+UpIn(n, ov, f, k) == IF k = 0 \/ f = 0 \/ f = n + 1 THEN f ELSE UpIn(n, ov, ov[f], k - 1)
+WellFormedOver(n, ov) == \A f \in 1..n : ov[f] # n + 1 /\ \A k \in 1..n : UpIn(n, ov, f, k) # f
+
+NoUnders(n) == [f \in 1..n |-> 0]
+UnderChoices(n, ov) ==
+    IF ~WellFormedOver(n, ov) \/ (n > MaxUnderFrames /\ MaxUnders = 0) THEN {NoUnders(n)}
+    ELSE IF n <= MaxUnderFrames THEN [1..n -> 0..(n + 1)]
+    ELSE {u \in [1..n -> 0..(n + 1)] : Cardinality({f \in 1..n : u[f] # 0}) <= MaxUnders}
+
 Init == /\ nf \in 1..MaxFrames
         /\ over \in [1..nf -> 0..(nf + 1)]
+        /\ under \in UnderChoices(nf, over)
+        /\ phase = "overs"
         /\ cur = 1 /\ pos = 0 /\ seen = {} /\ linked = {}
         /\ unders = [f \in 1..nf |-> <<>>]
         /\ result = "running"
 
-Start == /\ result = "running" /\ pos = 0 /\ cur <= nf
+Start == /\ result = "running" /\ phase = "overs" /\ pos = 0 /\ cur <= nf
          /\ pos' = cur /\ seen' = {cur}
-         /\ UNCHANGED <<nf, over, cur, unders, linked, result>>
+         /\ UNCHANGED <<nf, over, cur, unders, linked, under, phase, result>>
 
 \* the climb reached a top frame: go on with the next declared frame
-NextFrame == /\ result = "running" /\ pos # 0 /\ over[pos] = 0
+NextFrame == /\ result = "running" /\ phase = "overs" /\ pos # 0 /\ over[pos] = 0
              /\ pos' = 0 /\ cur' = cur + 1
-             /\ UNCHANGED <<nf, over, seen, unders, linked, result>>
+             /\ UNCHANGED <<nf, over, seen, unders, linked, under, phase, result>>
 
-Fail == /\ result = "running" /\ pos # 0
+Fail == /\ result = "running" /\ phase = "overs" /\ pos # 0
         /\ over[pos] = Dangling \/ over[pos] \in seen      \* unknown name, or a frame met before: loop
         /\ result' = "error"
-        /\ UNCHANGED <<nf, over, cur, pos, seen, unders, linked>>
+        /\ UNCHANGED <<nf, over, cur, pos, seen, unders, linked, under, phase>>
 
-Climb == /\ result = "running" /\ pos # 0
+Climb == /\ result = "running" /\ phase = "overs" /\ pos # 0
          /\ over[pos] \in Frames /\ over[pos] \notin seen
          /\ LET o == over[pos] IN
             /\ unders' = IF pos \in linked \/ InSeq(unders[o], pos) THEN unders ELSE [unders EXCEPT ![o] = Append(@, pos)]
             /\ linked' = linked \cup {pos}
             /\ pos' = o
             /\ seen' = seen \cup {o}
-         /\ UNCHANGED <<nf, over, cur, result>>
+         /\ UNCHANGED <<nf, over, cur, under, phase, result>>
 
-Finish == /\ result = "running" /\ pos = 0 /\ cur = nf + 1
+\* all over links resolved: an `under` name no frame has is an error; otherwise the outlines are traced
+EndOvers == /\ result = "running" /\ phase = "overs" /\ pos = 0 /\ cur = nf + 1
+            /\ IF \E f \in Frames : under[f] = Dangling
+               THEN result' = "error" /\ UNCHANGED <<phase, cur>>
+               ELSE phase' = "trace" /\ cur' = 1 /\ UNCHANGED result
+            /\ UNCHANGED <<nf, over, pos, seen, unders, linked, under>>
+
+\* primary under: the declared one, else the first frame attached below
+Primary(f) == IF under[f] # 0 THEN under[f] ELSE IF unders[f] # <<>> THEN unders[f][1] ELSE 0
+\* the outline of frame cur starts with the frame and its overs
+RECURSIVE Overs(_, _)
+Overs(f, k) == IF f = 0 \/ k = 0 THEN {} ELSE {f} \cup Overs(over[f], k - 1)
+TraceStart == /\ result = "running" /\ phase = "trace" /\ pos = 0 /\ cur <= nf
+              /\ pos' = cur /\ seen' = Overs(cur, nf)
+              /\ UNCHANGED <<nf, over, cur, unders, linked, under, phase, result>>
+Descend == /\ result = "running" /\ phase = "trace" /\ pos # 0
+           /\ Primary(pos) # 0 /\ Primary(pos) \notin seen
+           /\ pos' = Primary(pos) /\ seen' = seen \cup {Primary(pos)}
+           /\ UNCHANGED <<nf, over, cur, unders, linked, under, phase, result>>
+TraceFail == /\ result = "running" /\ phase = "trace" /\ pos # 0
+             /\ Primary(pos) # 0 /\ Primary(pos) \in seen       \* a frame met before: the outline has a loop
+             /\ result' = "error"
+             /\ UNCHANGED <<nf, over, cur, pos, seen, unders, linked, under, phase>>
+TraceEnd == /\ result = "running" /\ phase = "trace" /\ pos # 0 /\ Primary(pos) = 0
+            /\ pos' = 0 /\ cur' = cur + 1
+            /\ UNCHANGED <<nf, over, seen, unders, linked, under, phase, result>>
+
+Finish == /\ result = "running" /\ phase = "trace" /\ pos = 0 /\ cur = nf + 1
           /\ result' = "resolved"
-          /\ UNCHANGED <<nf, over, cur, pos, seen, unders, linked>>
+          /\ UNCHANGED <<nf, over, cur, pos, seen, unders, linked, under, phase>>
 
-Next == Start \/ NextFrame \/ Fail \/ Climb \/ Finish
+Next == Start \/ NextFrame \/ Fail \/ Climb \/ EndOvers \/ TraceStart \/ Descend \/ TraceFail \/ TraceEnd \/ Finish
 Spec == Init /\ [][Next]_vars
 LiveSpec == Spec /\ WF_vars(Next)
 
@@ -77,7 +130,15 @@ Up(f, k) == IF k = 0 \/ f = 0 \/ f = Dangling THEN f ELSE Up(over[f], k - 1)    
 OnCycle(f) == \E k \in 1..nf : Up(f, k) = f
 HasDangling == \E f \in Frames : over[f] = Dangling
 HasCycle == \E f \in Frames : OnCycle(f)
-WellFormed == ~HasDangling /\ ~HasCycle
+\* `under` declarations: Consistent = every declared under is a frame below the declaring frame
+DanglingUnder == \E f \in Frames : under[f] = Dangling
+Consistent == \A f \in Frames : under[f] # 0 => (under[f] \in Frames /\ over[under[f]] = f)
+\* the chain of primary unders below f meets a frame of f's outline again (evaluated on resolved over links)
+RECURSIVE Down(_, _, _)
+Down(f, S, k) == IF k = 0 THEN FALSE
+                 ELSE LET p == Primary(f) IN IF p = 0 THEN FALSE ELSE IF p \in S THEN TRUE ELSE Down(p, S \cup {p}, k - 1)
+UnderLoop == \E f \in Frames : Down(f, Overs(f, nf), nf + 1)
+WellFormed == ~HasDangling /\ ~HasCycle /\ ~DanglingUnder
 
 \* classification of the graph (for reports and vacuity guards)
 MeetsCycle(f) == \E k \in 0..nf : Up(f, k) \in Frames /\ OnCycle(Up(f, k))
@@ -89,14 +150,21 @@ Kind == IF HasDangling /\ ~HasCycle THEN "dangling"
 
 TypeOK == /\ cur \in 1..(nf + 1) /\ pos \in 0..nf /\ seen \subseteq Frames /\ linked \subseteq Frames
           /\ result \in {"running", "resolved", "error"}
-Sound == result = "resolved" => WellFormed
-Complete == result = "error" => ~WellFormed
+Sound == result = "resolved" => WellFormed /\ ~UnderLoop
+Complete == result = "error" => ~WellFormed \/ (phase = "trace" /\ UnderLoop)
+\* consistent declarations never make a loop: only a script that names a frame not below as under can
+ConsistentBuilds == (result = "error" /\ ~HasDangling /\ ~HasCycle) => ~Consistent
 UndersMatch == result = "resolved" =>
     \A f \in Frames : \A g \in Frames : (over[g] = f) <=> Cardinality({i \in 1..Len(unders[f]) : unders[f][i] = g}) = 1
 Termination == <>(result # "running")
 \* the verdict for the harness, printed once per graph when the procedure ends
 Verdict == (Emit /\ result # "running") =>
-    PrintT(ToJson([nf |-> nf, over |-> over, result |-> result,
+    PrintT(ToJson([nf |-> nf, over |-> over, under |-> under, result |-> result,
                    unders |-> IF result = "resolved" THEN unders ELSE [f \in 1..nf |-> <<>>],
-                   kind |-> Kind]))
+                   primary |-> IF result = "resolved" THEN [f \in 1..nf |-> Primary(f)] ELSE [f \in 1..nf |-> 0],
+                   consistent |-> Consistent,
+                   kind |-> IF \A f \in Frames : under[f] = 0 THEN Kind
+                            ELSE IF DanglingUnder THEN "under-dangling"
+                            ELSE IF result = "error" THEN "under-loop"
+                            ELSE IF Consistent THEN "under-consistent" ELSE "under-inconsistent"]))
 =============================================================================
